@@ -140,8 +140,37 @@ def run(model, col, tier):
             continue
         col.check(want == stem, "R06.3", f"{GEN}::opCodeMap[{mem}]", f"{mem} -> {stem}", f"IR opcode {mem} is translated with the wasm operator `{stem}`; it denotes `{want}`", GEN, opnode)
     # mnemonic construction: fold the f-string and the suffix condition over (type, opcode, unsigned)
-    fs = [v for v in find_assign(vb, "opCode") if isinstance(v, ast.JoinedStr)]
-    suffix_if = [n for n in ast.walk(vb) if isinstance(n, ast.If) and any(isinstance(s, ast.If) or isinstance(s, ast.AugAssign) for s in n.body) and "operationType" in unparse(n.test)]
+    # the mnemonic variable is whatever indexes the writer's opcode table
+    lk_ = [n for n in ast.walk(vb) if isinstance(n, ast.Subscript) and unparse(n.value).endswith("opcodes") and isinstance(n.slice, ast.Name)]
+    mn_ = lk_[0].slice.id if lk_ else "opCode"
+    fs = [v for v in find_assign(vb, mn_) if isinstance(v, ast.JoinedStr)]
+    suffix_if = [n for n in ast.walk(vb) if isinstance(n, ast.If) and "operationType" in unparse(n.test)
+                 and any(isinstance(x, ast.AugAssign) and isinstance(x.target, ast.Name) and x.target.id == mn_ for s in n.body for x in ast.walk(s))]
+
+    def suffix_of(sif_, uns_):
+        """the text appended to the mnemonic inside the suffix branch for a signed / unsigned operation"""
+        def run(stmts):
+            out_ = ""
+            for st_ in stmts:
+                if isinstance(st_, ast.AugAssign) and isinstance(st_.target, ast.Name) and st_.target.id == mn_ and isinstance(st_.op, ast.Add):
+                    v_ = st_.value
+                    if isinstance(v_, ast.IfExp):
+                        v_ = v_.body if bool(ev(v_.test, {"unsigned": uns_})) else v_.orelse
+                    if not (isinstance(v_, ast.Constant) and isinstance(v_.value, str)):
+                        raise AnalysisError(f"{GEN}::v_BinaryInstruction: suffix `{unparse(st_)}` is not a string constant")
+                    out_ += v_.value
+                elif isinstance(st_, ast.If):
+                    out_ += run(st_.body if bool(ev(st_.test, {"unsigned": uns_})) else st_.orelse)
+                elif isinstance(st_, (ast.Expr, ast.Pass)):
+                    continue
+                else:
+                    raise AnalysisError(f"{GEN}::v_BinaryInstruction: unmodelled statement in the suffix branch `{unparse(st_)[:50]}`")
+            return out_
+        try:
+            return run(sif_.body)
+        except CannotEval as e_:
+            raise AnalysisError(f"{GEN}::v_BinaryInstruction: suffix condition cannot be folded ({e_})")
+
     if not fs or not suffix_if:
         raise AnalysisError(f"{GEN}::v_BinaryInstruction: mnemonic construction (f-string + suffix condition) not in the modelled shape")
     sif = suffix_if[0]
@@ -165,7 +194,7 @@ def run(model, col, tier):
                     members = {dotted(e).split(".")[-1] for s_ in sets for e in s_.elts}
                     notin = any(isinstance(n, ast.Compare) and isinstance(n.ops[0], ast.NotIn) for n in ast.walk(sif.test))
                     cond = (ty == "i32") and ((mem not in members) if notin else (mem in members))
-                built = base + (("_u" if uns else "_s") if cond else "")
+                built = base + (suffix_of(sif, uns) if cond else "")
                 want_stem = oracles.WASM_OPSTEM.get(mem)
                 if want_stem is None:
                     continue
